@@ -45,3 +45,25 @@ def canon_agg(s):
     head, rest = s.split(";F=", 1)
     f, v = rest.split(";V=", 1)
     return head + ";F=" + ",".join(sorted(x for x in f.split(",") if x)) + ";V=" + ",".join(sorted(x for x in v.split(",") if x))
+
+
+RX = [b"a", b"ERROR", b"^ab$", b"x y", b"a  b", b" lead", b"trail ", b"", b".", b".*", b"[z-a]", b"(?i)error", b"k=v:w", b"a;b,c%d", b"caf\xc3\xa9", b"\\s+", b"regex:invert x"]
+WIRES = [b"regex:default a", b"regex:invert a  b", b"regex:noop ", b"regex:noop x", b"regex a", b"regex:bogus,noop x", b"regex:default,noop ab", b"regex:invert,default a",
+         b"nope:default a", b"regex:default [z-a]", b"regex:", b"", b"regex:default", b"regex:,, x", b"regex:noop,invert x", b"regexp:invert b", b"regex:default:invert a b"]
+RLINES = [b"a", b"ab", b"zab", b"a  b", b"x y", b"ERROR 42", b"error", b"", b" lead", b"trail ", b"k=v:w", b"caf\xc3\xa9", b"b"]
+
+
+def gen_regex(rng, n):
+    for w in WIRES:
+        yield f"gen.regex wire 0 {hexs(w)} {','.join(hexs(l) for l in RLINES)}"
+    for _ in range(n):
+        ls = rng.sample(RLINES, rng.randrange(3, len(RLINES)))
+        yield f"gen.regex new {rng.randrange(2)} {hexs(rng.choice(RX))} {','.join(hexs(l) for l in ls)}"
+
+
+def regex_model_case(case, impl):
+    return case + " " + impl.split("#", 1)[1] if "#" in impl else None
+
+
+def regex_impl_view(case, impl):
+    return impl.split("#", 1)[0]
